@@ -63,6 +63,14 @@ Proof. exact push_immediate_be. Qed.
 Theorem C13_arg_bytes : forall o, Z.of_nat (length (to_bytes1 o)) = 1 + arg_bytes o.
 Proof. exact arg_bytes_spec. Qed.
 
+(* Serialisation is a monoid homomorphism and parsing inverts it on concatenations (no lookahead or
+   state leaks from one program's bytes into the next). *)
+Theorem C13_to_bytes_app : forall a b, to_bytes (a ++ b) = to_bytes a ++ to_bytes b.
+Proof. exact to_bytes_app. Qed.
+Theorem C13_decode_concat : forall a b, Forall well_formed_op a -> Forall well_formed_op b ->
+  from_bytes (to_bytes a ++ to_bytes b) = Ok (a ++ b).
+Proof. exact decode_concat. Qed.
+
 (* Non-vacuity: a concrete program round-trips and a concrete bad string is rejected. *)
 Example C13_example_roundtrip :
   from_bytes (to_bytes [OPush (-1); OPop; OPush 9223372036854775807; OComputeEnd]) =
